@@ -1201,6 +1201,15 @@ def run(ctx):
             ('vv', ctx.q(4, 40)), ('exc', ctx.q(10, 150)), ('avg', ctx.q(120, 3000)), ('v3', ctx.q(20, 200))]
     if not build['build_ok']:
         plan = [(k, n * 4) for k, n in plan]
+    # in every run whatever the seed: more than 128 baselines (the averager works in blocks of 128) whose flags differ
+    # between a baseline of a later block and the baseline at the same position of the first block
+    for B_, tav, cav in ((130, 1, 1), (257, 2, 1), (129, 1, 2)):
+        T_, F_ = 2, 2
+        n_ = T_ * F_ * B_
+        cases.append(dict(kind='avg', T=T_, F=F_, B=B_, re=[float((i * 7) % 13) for i in range(n_)],
+                          im=[float((i * 3) % 5) for i in range(n_)], w=[1.0 + (i % 3) for i in range(n_)],
+                          flags=[(i % B_) >= 128 and ((i % B_) + (i // B_)) % 2 == 0 for i in range(n_)],
+                          timeav=tav, chanav=cav, flagav=False))
     # in every run whatever the seed: quotients SDP / CBF dump period of 1.5 and 3.5 (where rounding and truncating
     # to a whole number of correlator dumps differ), with the correlator stream declared
     for rn in (3, 7):
